@@ -9,7 +9,7 @@ from ..absint import Interp
 from ..model import AnalysisError, ClassInfo, FuncInfo, dotted, norm, walk_no_nested
 from ..report import rule
 from ..shape import Alt, Attr, CallV, Index, ListOf, Lit, Node, Param, Seq, Shaper, alts, chain, is_lit, nodes, seq_items
-from ..util import allargs, calls_named, cfg_of, is_const, is_name, key, kw, names_in, site_packages_source, stdlib_source, strip_pre
+from ..util import allargs, argv, calls_named, cfg_of, is_const, is_name, key, kw, names_in, site_packages_source, stdlib_source, strip_pre
 
 PG = "client_generators.package:PackageGenerator"
 CGEN = "client_generators.client:ClientGenerator."
@@ -352,6 +352,9 @@ def c02_r6(ctx):
                     exc = next((r.exc for r in ast.walk(fi.node) if isinstance(r, ast.Raise) and r.exc is not None and "InvalidOperationForSchema" in norm(r.exc)), None)
                 msg = strip_pre(allargs(exc)[0]) if isinstance(exc, ast.Call) and allargs(exc) else None
                 msg = strip_pre(o[0].deref(msg)) if isinstance(msg, ast.Name) else msg
+                if msg is not None:
+                    from ..absint import subst as _sb
+                    msg = strip_pre(_sb(msg, o[0].env, deep=True))
                 named = False
                 if msg is not None:
                     for c in ast.walk(msg):
@@ -466,14 +469,17 @@ def c04_r3(ctx):
     for x in vo:
         for nm in ("file_names",) + tuple(x.env):
             v = x.env.get(nm)
-            if v is not None and isinstance(strip_pre(v), (ast.BinOp, ast.List, ast.Call)) and "client_file_name" in norm(v):
+            if str(nm).startswith("<") or not isinstance(v, ast.AST):
+                continue
+            if isinstance(strip_pre(v), (ast.BinOp, ast.List, ast.Call)) and "client_file_name" in norm(v):
                 fn_expr = v
                 break
         if fn_expr is not None:
             break
     if fn_expr is None:
         raise AnalysisError("the list of checked file names was not found in _validate_unique_file_names")
-    members = set(seq_terms(fn_expr))
+    from ..absint import subst as _subst
+    members = set(seq_terms(_subst(fn_expr, vo[0].env if vo else {}, deep=True)))
     covered_by = {
         "f'{self.client_file_name}.py'": "f'{self.client_file_name}.py'",
         "f'{self.enums_module_name}.py'": "f'{self.enums_module_name}.py'",
@@ -862,9 +868,10 @@ def c09_r1(ctx):
             if isinstance(n, ast.Attribute) and norm(n) == "self._used_enums" and isinstance(n.ctx, ast.Load):
                 par_is_call = False
                 readers.setdefault(name, fi)
-    readers = {n: f for n, f in readers.items() if any(
-        isinstance(c, ast.Call) and any(norm(a) == "self._used_enums" or (isinstance(a, ast.AST) and "self._used_enums" in norm(a)) for a in list(c.args) + [k.value for k in c.keywords])
-        and norm(c.func) not in ("self._used_enums.extend", "self._used_enums.append") for c in walk_no_nested(f.node))}
+    def _pure_reader(f):
+        recv = {id(c.func.value) for c in walk_no_nested(f.node) if isinstance(c, ast.Call) and isinstance(c.func, ast.Attribute) and c.func.attr in ("extend", "append")}
+        return any(isinstance(n, ast.Attribute) and norm(n) == "self._used_enums" and isinstance(n.ctx, ast.Load) and id(n) not in recv for n in walk_no_nested(f.node))
+    readers = {n: f for n, f in readers.items() if _pure_reader(f)}
     if "_generate_enums" not in readers or len(writers) < 3:
         raise AnalysisError(f"used-enums writers {sorted(writers)} / readers {sorted(readers)} not as expected")
     gen = repo.func(PG + ".generate")
@@ -890,12 +897,32 @@ def c09_r1(ctx):
     ctx.check(good, key(mc, "operations before generate"), "operations are not all added before generate()", mc.loc(), okmsg="all operations added before generate()")
     # pruning uses the accumulated list
     ge_ = repo.func(PG + "._generate_enums")
-    o = Interp(ge_, lambda e: (False if norm(e) in ("self.include_all_enums", "self.plugin_manager") else None)).run()
-    good = bool(o) and all(norm(x.env.get("module") or ast.Constant(0)) == "self.enums_generator.generate(types_to_include=self._used_enums)" for x in o)
-    ctx.check(good, key(ge_, "pruned"), "with include_all_enums=false the enums module is not generated from the used-enum list", ge_.loc(), okmsg="include_all_enums=false -> generate(types_to_include=self._used_enums)")
-    o = Interp(ge_, lambda e: (True if norm(e) == "self.include_all_enums" else False if norm(e) == "self.plugin_manager" else None)).run()
-    good = bool(o) and all(norm(x.env.get("module") or ast.Constant(0)) == "self.enums_generator.generate()" for x in o)
-    ctx.check(good, key(ge_, "all"), "with include_all_enums=true not all enums are generated", ge_.loc(), okmsg="include_all_enums=true -> generate()")
+    def _tti(x):
+        m = x.env.get("module")
+        m = strip_pre(m) if m is not None else None
+        if not (isinstance(m, ast.Call) and norm(m.func) == "self.enums_generator.generate"):
+            return "?"
+        a = argv(m, 0, "types_to_include")
+        a = strip_pre(x.deref(a)) if isinstance(a, ast.Name) else a
+        return "<all>" if a is None or is_const(a, None) else norm(a)
+
+    def _inc(v):
+        def atom(e):
+            t = norm(strip_pre(e))
+            if t == "self.include_all_enums":
+                return v
+            if t == "not self.include_all_enums":
+                return not v
+            if t == "self.plugin_manager":
+                return False
+            return None
+        return atom
+    o = Interp(ge_, _inc(False)).run()
+    good = bool(o) and all(_tti(x) == "self._used_enums" for x in o)
+    ctx.check(good, key(ge_, "pruned"), f"with include_all_enums=false the enums module is not generated from the used-enum list ({[_tti(x) for x in o]})", ge_.loc(), okmsg="include_all_enums=false -> generate(types_to_include=self._used_enums)")
+    o = Interp(ge_, _inc(True)).run()
+    good = bool(o) and all(_tti(x) == "<all>" for x in o)
+    ctx.check(good, key(ge_, "all"), f"with include_all_enums=true not all enums are generated ({[_tti(x) for x in o]})", ge_.loc(), okmsg="include_all_enums=true -> generate()")
 
 
 @rule("C09.R2", "every generator that emits enum references feeds the used-enum list", min_instances=5, also=["C04"])
@@ -1322,8 +1349,8 @@ def c17_r4(ctx):
     ctx.check(bool(o) and all(x.kind == "raise" and x.exc == "InvalidGraphqlSyntax" for x in o), key(rf, "syntax error"), f"a GraphQL syntax error is not reported as InvalidGraphqlSyntax: {[x.text() for x in o]}", rf.loc(),
               okmsg="GraphQL syntax error -> InvalidGraphqlSyntax naming the file")
     lf = repo.func("schema:load_graphql_files_from_path")
-    rd = [c for c in walk_no_nested(lf.node) if isinstance(c, ast.Call) and dotted(c.func) in ("open", "path.read_text")]
-    ctx.check(not rd and len(calls_named(lf.node, "read_graphql_file")) == 2, key(lf, "checked reads"), "GraphQL files are read without the syntax check", lf.loc(), okmsg="every GraphQL file is read through read_graphql_file")
+    rd = [c for c in walk_no_nested(lf.node) if isinstance(c, ast.Call) and (dotted(c.func) in ("open", "io.open") or (isinstance(c.func, ast.Attribute) and c.func.attr in ("read_text", "read_bytes", "open", "read")))]
+    ctx.check(not rd and len(calls_named(lf.node, "read_graphql_file")) >= 1, key(lf, "checked reads"), "GraphQL files are read without the syntax check", lf.loc(), okmsg="every GraphQL file is read through read_graphql_file")
 
 
 @rule("C17.R6", "reading settings never mutates the configuration; unknown keys ignored; typed errors for missing pieces", min_instances=6)
@@ -1376,12 +1403,30 @@ def c17_r6(ctx):
                         conv = True
         ctx.check(conv, key(fi, "missing fields"), "missing required settings are not reported as MissingConfiguration", fi.loc(), okmsg=f"{fn}: missing fields -> MissingConfiguration")
     gcs = repo.func("config:get_client_settings")
-    conv = False
-    for t in ast.walk(gcs.node):
-        if isinstance(t, ast.Try) and any("ScalarData(" in norm(s) for s in t.body):
-            for h in t.handlers:
-                if h.type is not None and "KeyError" in norm(h.type) and any(isinstance(x, ast.Raise) and "MissingConfiguration" in norm(x) for x in ast.walk(h)):
-                    conv = True
+    # every read of a scalar's mandatory "type" key (here or in a helper of the config module that this function calls) sits in a
+    # try block whose KeyError handler raises MissingConfiguration
+    from ..callgraph import CallGraph
+    cgr = CallGraph(repo)
+    scope = [gcs] + [f for f in cgr.reach([gcs]).values() if f.module is gcs.module and f.key != gcs.key]
+    reads, guarded = 0, 0
+    for f in scope:
+        par = {}
+        for n in ast.walk(f.node):
+            for ch in ast.iter_child_nodes(n):
+                par[id(ch)] = n
+        for n in ast.walk(f.node):
+            if isinstance(n, ast.Subscript) and isinstance(n.ctx, ast.Load) and is_const(n.slice, "type"):
+                reads += 1
+                q, prev = par.get(id(n)), n
+                ok_ = False
+                while q is not None:
+                    if isinstance(q, ast.Try) and any(prev is b or any(prev is x for x in ast.walk(b)) for b in q.body):
+                        for h in q.handlers:
+                            if h.type is not None and "KeyError" in norm(h.type) and any(isinstance(x, ast.Raise) and "MissingConfiguration" in norm(x) for x in ast.walk(h)):
+                                ok_ = True
+                    prev, q = q, par.get(id(q))
+                guarded += 1 if ok_ else 0
+    conv = reads >= 1 and guarded == reads
     ctx.check(conv, key(gcs, "scalar without type"), "a scalar without `type` is not reported as MissingConfiguration", gcs.loc(), okmsg="scalar without type -> MissingConfiguration")
     cs = repo.func("settings:ClientSettings.__post_init__")
     conv = False
